@@ -301,6 +301,13 @@ def check_fan(case):
 @st.composite
 def sedov_case(draw):
     c = draw(cat.sedov_params(types=('standard', 'standard', 'vacuum'), wrappers=False))
+    if draw(st.integers(0, 3)) == 0:
+        # the removable singularity omega = j (2 - gamma) ('omega3') has its own closed-form branch in the solver
+        g_ = draw(st.sampled_from([5.0 / 3.0, 1.4, 1.8, 1.5]))
+        k_ = c['geometry']
+        om = k_ * (2.0 - g_)
+        if 0.05 < om < min(cat.sedov_omega_singular(k_, g_), k_) - 0.05:
+            c.update(gamma=g_, omega=om, kind='standard', params=dict(c['params'], gamma=g_, omega=om))
     c['t'] = draw(logu(0.2, 3.0))
     c['fr'] = draw(st.lists(uni(0.3, 0.93), min_size=3, max_size=6))
     return c
